@@ -234,8 +234,11 @@ class CronCondition(TriggerCondition[CronContext]):
 
         # Check if current timestamp exactly matches a scheduled time
         if croniter.match(self.cron_expression, context.timestamp):
-            # Exact match - time difference is 0
-            time_diff_seconds = 0.0
+            # Inside the scheduled minute (croniter matches with minute precision):
+            # seconds elapsed since it started
+            time_diff_seconds = (
+                context.timestamp.second + context.timestamp.microsecond / 1_000_000
+            )
         else:
             # Get previous scheduled time and calculate difference
             prev_time = cron.get_prev(datetime)
